@@ -447,7 +447,17 @@ class Task:
         except Infeasible:
             pass
         except Unsupported as u:
-            c.obs.append(ObRec(f"{name}/unsupported", "undecided", 0.0, str(u), path=c.path_id, kind="unsupported"))
+            # a construct outside the subset only matters on a path that can happen: ask the full solver before giving up
+            infeasible = False
+            try:
+                c.sync()
+                c.solver.set("timeout", self.goal_timeout_ms)
+                infeasible = c.solver.check() == z3.unsat
+                c.solver.set("timeout", self.branch_timeout_ms)
+            except Exception:  # noqa
+                pass
+            if not infeasible:
+                c.obs.append(ObRec(f"{name}/unsupported", "undecided", 0.0, str(u), path=c.path_id, kind="unsupported"))
         except Restart:
             raise
         except RecursionError:
